@@ -94,6 +94,128 @@ check("C12", "exploration",
       "bounded conformance reader as labelled stand-in (no contract expresses textwrap's line breaking); ground obligations on dialect constants",
       "DESIGN.md §3 C12")
 
+PARSER_NOTE = ("Trusted: pyvc encoding of the Python subset; the token-stream ghost model (arbitrary token sequence, arbitrary "
+               "lexer-failure index; send/throw protocol facts re-observed on the real generator every run); uninterpreted token "
+               "predicates; decoder.decode_simple_value raises only ValueError (assumed, bounded-checked); the lexer itself is not "
+               "proved (C15 loop obligation + bounded enumeration); z3 unsat answers.")
+
+check("C06", "other",
+      "Mixed, reported separately in the evidence. Proved (pyvc T_tok, 27 parser method bodies incl. every override, ~420 "
+      "obligations): each method exits only through its permitted exits - LexerError / ParseError for parse and parse_module; "
+      "ValueError and StopIteration only as internal signals with stated stream post-states - every tokens.send/throw call "
+      "site satisfies the generator protocol (so the plain ValueError / StopIteration of a finished generator cannot leak), "
+      "no local is read unbound, and every loop has a decreasing measure (tokens remaining), which gives termination of the "
+      "parser layer for every token sequence and every lexer-failure point. Not proved: the character-level lexer and the "
+      "decoders' exception closure; the property as a whole is therefore decided by the bounded driver (all strings up to a "
+      "length bound over a PVL alphabet, statement templates, mutated corpus; step budget instead of wall-clock) x 5 parsers.",
+      PARSER_NOTE,
+      "contract-based deductive verification of the parser layer over a token-stream ghost model (pyvc T_tok + z3); bounded string enumeration with step budget as labelled stand-in for lexer/decoder",
+      "DESIGN.md §3 C06, Appendix A")
+
+check("C05", "fault_enumeration",
+      "Decided by enumeration of token-level damage (delete, duplicate, swap, replace by each token kind, truncate; pairs in the "
+      "thorough tier) of generated well-formed labels against an independent token-level recogniser and denotation x 5 parser "
+      "configurations. The deductive part - reported separately, not counted as deciding the property - proves on the real "
+      "parser bodies the stream contracts the 'try each production without rewinding' design depends on: a ValueError exit "
+      "leaves the stream restored or exhausted (now also for parse_assignment_statement and parse_aggregation_block, which "
+      "the contracts showed to violate it: seven fix: commits), result kinds (_parse_set_seq returns a list on every normal "
+      "exit), return of parse_module only after END / exhaustion / hook-stop.",
+      PARSER_NOTE + " Oracle: the recogniser of DESIGN.md Appendix B restricted to the generated language.",
+      "bounded fault enumeration against an independent recogniser; parser stream contracts proved with pyvc T_tok",
+      "DESIGN.md §3 C05")
+
+check("C09", "other",
+      "Mixed. Proved: 'the parser requests no token beyond the END statement' - parse_end_statement requests at most one "
+      "token and marks the stream ended, parse_module/parse return at once, and every next() site of every parser method "
+      "carries the obligation `not after END` (pyvc T_tok); the lexer's look-ahead is bounded by i+1 (+ one startswith) "
+      "(structural obligation); loads/dump/dumps wiring (structural obligations). Bounded: agreement of the seven entry routes "
+      "and behaviour on trailing bytes depends on pathlib/codecs/stream buffering (exception-driven route selection in "
+      "get_text_from) - labels x trailing families x separators x routes, with a counting lexer function.",
+      PARSER_NOTE + " Path.read_text/write_text, stream read/write/tell/seek, urlopen: library behaviour, bounded only.",
+      "contract-based verification of the END discipline (pyvc T_tok) + structural obligations; bounded route differential as labelled stand-in",
+      "DESIGN.md §3 C09")
+
+check("C08", "other",
+      "Mixed. Proved: OmniParser._empty_value's position arithmetic (placeholder line = 1 + newlines before the last '=' before "
+      "pos; exactly that line is appended to errors), linecount, the stream contracts of the three Omni hook methods (consume, "
+      "never loop), placeholders are constructed only in _empty_value and only reachable from OmniParser methods, the strict "
+      "parsers' hooks raise unconditionally, module.errors = sorted(errors). Not expressible at function level: that the "
+      "position handed to _empty_value has the parameter's own '=' as nearest preceding '=' in the ORIGINAL text - decided "
+      "bounded (labels x subsets of removed values x layouts), with the recorded finding KF-C08-lineno.",
+      PARSER_NOTE + " str.count/str.rfind uninterpreted (argument wiring proved, meaning checked natively).",
+      "contract-based verification of the repair arithmetic and hook contracts (pyvc T_tok/T_str); bounded missing-value enumeration as labelled stand-in",
+      "DESIGN.md §3 C08")
+
+check("C18", "proof",
+      "Allocation-site obligations over the real ASTs of parser.py and decoder.py, one per constructor-like call site: the "
+      "only expression producing a real is self.real_cls(str(value)) in decode_decimal (inherited unchanged by every decoder), "
+      "the only quantity construction is self.quantity_cls(value, str(unit)), containers are built only by self.modcls() / "
+      "grpcls() / objcls() at three sites, no literal float/Decimal/Quantity/PVL* constructor is called, and every value of a "
+      "sequence, set, units expression or block flows through parse_value -> decode_simple_value; the ODL units guard tests "
+      "the configured class. Uniformity at every depth is then structural. 'Changes nothing else' additionally needs the "
+      "real class to accept exactly the tokens float accepts - false for Decimal ('snan'), recorded as KF-C18-decimal-words; "
+      "a bounded type walk over generated labels x substitute combinations runs alongside.",
+      "Trusted: syntactic call-site enumeration; third-party quantity classes; C06's call graph for 'every value goes through "
+      "parse_value'.",
+      "contract-based verification: allocation-site obligations discharged by the frame back end over the real AST; bounded type walk as stand-in",
+      "DESIGN.md §3 C18")
+
+check("C19", "other",
+      "Reduction proved, dependency assumed: pvl.new.loads/dumps run the same parser and encoder with other container classes "
+      "(structural obligations on pvl/new.py), and parser.py / encoder.py use only a five-name client interface of the "
+      "containers (frame obligation per attribute use). OrderedMultiDict satisfies that interface (C10, proved). PVLMultiDict "
+      "sits on third-party multidict internals that cannot be brought under contract: assumed and bounded-checked by a "
+      "differential run (generated labels + corpus x encoders) - and false in this sandbox (multidict 6.8), recorded as "
+      "KF-C19-multidict-drift.",
+      "Trusted/assumed: multidict.MultiDict and PVLMultiDict's use of its internals; frame back end.",
+      "contract reduction (interface-usage obligations) + assumed third-party contract, bounded differential as labelled stand-in",
+      "DESIGN.md §3 C19")
+
+check("C20", "other",
+      "Mixed. Proved (ground and structural obligations on the real modules): formats[F] is a PVLWriter holding exactly F's "
+      "encoder class with default options, each dialects row carries that dialect's parser/grammar/decoder/encoder sharing one "
+      "grammar and one decoder object, pvl_translate.main has no handler between load and dump (fails exactly when the library "
+      "call fails), PVLWriter.dump passes its own encoder, pvl_flavor's verdict logic (loads = True right after pvl.loads "
+      "returns; every encoder exception is an encode verdict). Bounded: report layout, JSON output, completion for every "
+      "readable file - in-process runs of both tools over corpus/generated/damaged files.",
+      "Trusted: argparse, json, logging; structural obligations match the statements textually (a refactoring makes them fail "
+      "closed, the bounded differential then decides).",
+      "ground + structural obligations on the wiring; bounded CLI-vs-library differential as labelled stand-in",
+      "DESIGN.md §3 C20")
+
+BOUNDED = {
+ "C01": ("exploration", "Dump-then-strict-load round trip over an exhaustive small universe of modules (boundary value pool per kind, "
+         "duplicate keys, nesting) x 4 encoders x option grid (pairwise in quick, full product in thorough) plus seeded random "
+         "modules, compared with a spec function implementing exactly the five documented normalisations. The relational claim "
+         "spans encoder, lexer, parser and decoder; with the lexer unproved no contract decides it, so the level is bounded; "
+         "value-level lemmas proved by the regex/decoder back end are reported separately.", "DESIGN.md §3 C01/C02/C07"),
+ "C02": ("exploration", "As C01 with the default permissive loader (pvl.loads with no arguments) reading every encoder's output.", "DESIGN.md §3 C01/C02/C07"),
+ "C07": ("exploration", "load -> dump -> load -> dump over the corpus, a spelling catalogue, generated texts and token mutants x 4 "
+         "encoders: second load equal up to the C01 normalisations, second dump byte-identical up to set order.", "DESIGN.md §3 C01/C02/C07"),
+ "C03": ("exploration", "Abstract documents x concrete spellings (radix/sign positions, real forms, quotes, keyword case, delimiters, "
+         "end names, separators) rendered by an independent generator that keeps the abstract tree as oracle x 5 parser "
+         "configurations; exhaustive for small documents over the spelling alphabet, seeded random beyond. The decoder lexeme "
+         "layer is under contract (regex/decoder back end, reported separately); lexer+parser composition is bounded.", "DESIGN.md §3 C03"),
+ "C04": ("exploration", "Metamorphic: every adjacent token-kind pair x every separator (each white-space character, comments, mixtures, "
+         "empty where optional) and random whole-label layouts x 5 parser configurations give the same module. A relational "
+         "claim about two runs of lexer+parser; no contract on one call expresses it.", "DESIGN.md §3 C04"),
+ "C14": ("exploration", "Decode and encode-decode grids against an oracle built from the written fields: every day of years 0001-9999 "
+         "in both date forms (thorough; boundary years in quick), every field boundary in every time form, every microsecond "
+         "value for the PDS3 rule, every zone offset in 15/30-minute steps in every spelling x 5 dialect configurations; "
+         "finite grids enumerated completely are marked exhaustive.", "DESIGN.md §3 C14"),
+ "C17": ("exploration", "All strings up to a length bound over a PVL-significant alphabet plus curated and random longer ones x 5 "
+         "grammar/decoder pairs: one class per token text, predicates consistent with it, and the writer/reader obligation "
+         "(needs_quotes false => decodes to the identical string; encode_string round-trips) for the four encoders.", "DESIGN.md §3 C17"),
+}
+for pid, (cat, text, ref) in BOUNDED.items():
+    check(pid, cat, text,
+          "Bounded: the measured bounds are in the evidence file; recorded findings (known_findings.json) are carved out by key "
+          "and replayed on every run. Oracles are independent of the library (spec functions written from the statement).",
+          "bounded run of an independent oracle as labelled stand-in (the property is relational over lexer, parser, decoder and "
+          "encoder; the lexer is outside the verifier's reach); decoder/encoder lexeme obligations by the pyvc regex back end reported separately",
+          ref)
+
+
 
 def main():
     props = [json.loads(l) for l in open(os.path.join(ROOT, "properties.jsonl"))]
